@@ -65,11 +65,11 @@ def conditions(tier, seed):
     picks = [(seed * 3 + k * 9) % ns for k in range(4)] if tier == 'quick' else list(range(ns))
     for sh in picks:
         out.append(Cond('layout_s%d' % sh, 'c07_layout.py', dict(shard=sh, nshards=ns), timeout=900 if tier == 'quick' else 6000,
-                        bound='statement productions x optional words x gap pairs (shard %d/%d of 43 x 16 x 144)' % (sh, ns),
+                        bound='statement productions x optional words x gap pairs (shard %d/%d of 47 x 16 x 144)' % (sh, ns),
                         case_split=['ci (program, optional-word mask, gap pair)'], realised=['program text']))
     q = tier == 'quick'
     out.append(Cond('abs_core', 'c07_abs.py', dict(family='core'), func='check_program', timeout=600 if q else 3000,
-                    bound='33 statement skeletons written with minimal parentheses: the parsed tree, lifted back, equals the tree that was written (statement kinds, order, nesting, elif order, operands, names)',
+                    bound='35 statement skeletons written with minimal parentheses: the parsed tree, lifted back, equals the tree that was written (statement kinds, order, nesting, elif order, operands, names)',
                     case_split=['program'], realised=['program text'], twin=False))
     out.append(Cond('abs_gen', 'c07_abs.py', dict(family='gen', seed=seed, count=40 if q else 400), func='check_program', timeout=600 if q else 3000,
                     bound='%d generated programs (seed %d) written with minimal parentheses vs the tree that was written' % (40 if q else 400, seed),
@@ -80,7 +80,7 @@ def conditions(tier, seed):
                         bound='all 19230 expression trees of depth <= 2 over or and == < + - * / %% and not/-/empty/cardinality (shard %d/%d), minimal parentheses' % (sh, nsh),
                         case_split=['tree'], realised=['expression text'], twin=(sh == 0)))
     out.append(Cond('layout_edges', 'c07_layout.py', {}, func='check_edges', timeout=900 if tier == 'quick' else 3000,
-                    bound='43 programs x 11 layouts before the first token x 11 layouts behind the last token (incl. a line comment the text ends in)',
+                    bound='47 programs x 11 layouts before the first token x 11 layouts behind the last token (incl. a line comment the text ends in)',
                     case_split=['program', 'lead', 'tail'], realised=['program text'], twin=False))
     return out
 
